@@ -57,12 +57,14 @@ def merge_copyright_lines(copyright_lines: set[str]) -> set[str]:
             item for item in copyright_in if item["statement"] == statement
         ]
 
-        # Get the most common prefix.
-        most_common = str(
-            Counter([item["prefix"] for item in copyright_list]).most_common(1)[
-                0
-            ][0]
-        )
+        # Get the most common prefix. A line with a range of years stands for
+        # at least two lines that have been merged before, and counts as such:
+        # otherwise the same command run again sees a tie where there was a
+        # majority, and may decide the other way.
+        prefixes: Counter[str] = Counter()
+        for item in copyright_list:
+            prefixes[str(item["prefix"])] += max(len(set(item["year"])), 1)
+        most_common = prefixes.most_common(1)[0][0]
         prefix = "spdx"
         for key, value in _COPYRIGHT_PREFIXES.items():
             if most_common == value:
